@@ -21,7 +21,7 @@ def build_file(g, d, n=1500, with_edges=None, name='ev.fits', energy_inside=None
         e = numpy.linspace(tstart, tstop, with_edges + 1)
         t = numpy.sort(numpy.unique(numpy.concatenate([t, e, numpy.nextafter(e, 0.)[1:], numpy.nextafter(e, 1e9)[:-1]])))
     n = len(t)
-    pi = g.integers(20, 290, n)
+    pi = g.integers(3, 372, n)                       # measured energies from 0.14 to 14.9 keV: also outside the 1-12 keV band of the response tables
     if energy_inside is not None:
         pi = g.integers(int(energy_inside[0] / 0.04) + 1, int(energy_inside[1] / 0.04) - 1, n)
     else:
@@ -168,6 +168,13 @@ def explore(chk, budget=1):
             exp = numpy.array([((c['energy'] > a) & (c['energy'] <= b)).sum() for a, b in zip(fine[:-1], fine[1:])])
             if not numpy.array_equal(cf['COUNTS'].astype(int), exp):
                 chk.fail('impl', 'PCUBE COUNTS %s differ from the events in each (emin, emax] bin %s' % (cf['COUNTS'], exp), dict(oracle='PCUBE-counts', edges=fine))
+        # a binning that reaches beyond the 1-12 keV band of the response tables: measured energies span the whole 0-15 keV channel range
+        wide = [0.1, 1., 2., 8., 12., 14.9]
+        cw = cube('--ebinalg', 'LIST', '--ebinning', str(wide))
+        expw = numpy.array([((c['energy'] > a) & (c['energy'] <= b)).sum() for a, b in zip(wide[:-1], wide[1:])])
+        chk.case(dict(op='PCUBE-wide', edges=wide, events_per_bin=[int(x) for x in expw]), nontrivial=bool(expw[0] > 0 and expw[-1] > 0))
+        if not numpy.array_equal(cw['COUNTS'].astype(int), expw):
+            chk.fail('impl', 'PCUBE COUNTS %s on the edges %s differ from the events in each (emin, emax] bin %s' % (cw['COUNTS'], wide, expw), dict(oracle='PCUBE-wide', edges=wide))
         # EQP: same edges through LIST must give the same cube; all energies inside [emin, emax] (pre-selected file) and not
         for inside in (None, (2., 8.)):
             p2 = build_file(g, d, n=900, name='eqp%s.fits' % ('in' if inside else ''), energy_inside=inside)
@@ -231,5 +238,6 @@ def main(chk):
 
 
 def replay(body):
-    out(body['what'])
-    return 1
+    import sys
+    import common
+    return common.replay_rerun(sys.modules[__name__], body)
